@@ -37,6 +37,8 @@ def build(clauses, variant, greedy, prios):
             body = (("yield", "Y%d" % (i + 1)),)
         elif variant == "empty1" and i == 0:
             body = ()
+        elif variant == "mixbody" and i % 2 == 1:
+            body = (("match", L("x")), ("finish", code))
         else:
             body = (("finish", code),)
         cl.append((pr, tuple(pats), body))
@@ -88,6 +90,9 @@ def check_item(item):
         if variant == "empty1" and i == 0:
             return ("finish", "D")
         return ("finish", "C%d" % (i + 1))
+
+    def xbody(i):
+        return variant == "mixbody" and i % 2 == 1
 
     def alive(Q, c):
         return [j for j in range(len(Q)) if Q[j] is not None and not dfas[j].dead(D.deriv(Q[j], c))]
@@ -163,11 +168,11 @@ def check_item(item):
                 else:
                     st = ("case", Q0, False)
             if terminal is None and st[0] == "pendfin":
-                exp_pre.append(("finish", "C0"))
-                terminal = ("finish", "C0")
+                exp_pre.append(st[1])
+                terminal = st[1]
             if terminal is None and st[0] == "elsex":
                 if c == ord("x"):
-                    verdict = ("consume", ("pendfin",), [("finish", "C0")])
+                    verdict = ("consume", ("pendfin", st[1]), [st[1]])
                 else:
                     verdict = ("fail",)
             if terminal is None and verdict is None:
@@ -179,8 +184,17 @@ def check_item(item):
                         if tie:
                             return bad("accepted although two clauses of equal standing match %r" % path, p2)
                         ce = code_of(w)
-                        exp_pre.append(ce)
-                        if ce[0] == "finish":
+                        if xbody(w):
+                            # the clause body starts with a match: it starts at this byte
+                            if c == ord("x"):
+                                verdict = ("consume", ("pendfin", ce), [ce])
+                            else:
+                                verdict = ("fail",)
+                        else:
+                            exp_pre.append(ce)
+                        if xbody(w):
+                            pass
+                        elif ce[0] == "finish":
                             terminal = ce
                         else:
                             # lexer: restart the case on the same byte
@@ -199,7 +213,7 @@ def check_item(item):
                             terminal = ce
                         elif has_else and variant == "elsex":
                             if c == ord("x"):
-                                verdict = ("consume", ("pendfin",), [("finish", "C0")])
+                                verdict = ("consume", ("pendfin", ("finish", "C0")), [("finish", "C0")])
                             else:
                                 verdict = ("fail",)
                         else:
@@ -219,7 +233,10 @@ def check_item(item):
                         else:
                             if tie:
                                 return bad("accepted although two clauses of equal standing match %r" % p2, p2)
-                            verdict = ("consume", ("pend", code_of(w)), [code_of(w)])
+                            if xbody(w):
+                                verdict = ("consume", ("elsex", code_of(w)), [])
+                            else:
+                                verdict = ("consume", ("pend", code_of(w)), [code_of(w)])
                     else:
                         verdict = ("consume", ("case", Q2, True), [])
             # -------- compare
@@ -285,10 +302,10 @@ def items_for(tier, seed):
     allsets = sets + three + four + multi
     for s in allsets:
         n = len(s)
-        for variant in ("plain", "else", "elsex", "empty1", "elsepat"):
+        for variant in ("plain", "else", "elsex", "empty1", "elsepat", "mixbody"):
             items.append((s, variant, False, None))
-        for pr in (None, tuple(range(n)), tuple(reversed(range(n)))):
-            for variant in ("plain", "else", "lexer"):
+        for pr in (None, tuple(range(1, n + 1)), tuple(reversed(range(1, n + 1)))):
+            for variant in ("plain", "else", "lexer", "mixbody"):
                 items.append((s, variant, True, pr))
     return [(a, b, c, d, (i % (9 if tier == "quick" else 6)) == seed % (9 if tier == "quick" else 6)) for i, (a, b, c, d) in enumerate(items)]
 
